@@ -1,10 +1,250 @@
 (* Props/C01.v — property C01: any-predecessor (Pregel) runs follow lock-step superstep semantics and
-   terminate; a chain is sequential composition. Only statements, each closed by [exact]. *)
-From Eino Require Import Base.Util Model.Graph Model.Chain Proofs.Graph.
+   terminate; a graph used as a node behaves like the same graph alone; a chain is sequential composition.
+   Only statements, each closed by [exact]; all are about the definitions of Model/Graph.v and Model/Chain.v
+   that Corr/C01.v evaluates (tree_run = run = run_nest = run_flat / iterate / step / calc_next ...).
+
+   Vocabulary (Proofs/Pregel*.v):
+     pregel_graph g        g is compiled in any-predecessor mode with the batch task manager
+     receives n out t      t is a data successor of n or is chosen by one of n's branches for output [out]
+     sent g outs t         the (sender, value) pairs routed to t by the completed tasks [outs] of one step
+     collect l             a channel after the reports l (keyed by sender, ascending; a later report wins)
+     reachable p g x s k ls   ls is the loop state of a fresh run of g on x after k continuing supersteps
+     pregel_inv ls         channels all empty, nothing running, frontier without duplicates and without END *)
+From Eino Require Import Base.Util Model.Graph Model.Chain Proofs.Graph
+  Proofs.PregelBase Proofs.Pregel Proofs.PregelRun Proofs.PregelNest Proofs.PregelTop.
 Open Scope N_scope.
 
-(* default step limit = number of nodes + 10 (graph.compile) *)
+(* ---------- default step limit = number of nodes + 10 (graph.compile) ---------- *)
 Theorem default_limit :
   forall g, g_max g = 0%nat -> max_steps g = (List.length (real_nodes g) + 10)%nat.
 Proof. exact max_steps_default. Qed.
 Print Assumptions default_limit.
+
+(* ---------- pregel_routing: who receives a completed task's output ---------- *)
+(* one completed task: exactly one write per data successor and per branch choice, carrying the output;
+   channels are untouched (no skip bookkeeping in this mode); branches may only choose declared end nodes *)
+Theorem pregel_routing :
+  forall (V : Type) (ops : vops V) g n out cs cs' ws ds,
+    g_mode g = Pregel ->
+    resolve_one V ops g n out cs = Ok (cs', ws, ds) ->
+    cs' = cs /\ branches_legal V ops n out /\
+    (forall t s v, In (t, (s, v)) ws <->
+                   (receives V ops n out t /\ s = n_key n /\ v = edge_value V ops n t out)).
+Proof. exact resolve_one_routing. Qed.
+Print Assumptions pregel_routing.
+
+(* all completed tasks of a step: t is sent (s, v) iff task s completed with some output, t receives it,
+   and v is that output; the channel of t then holds exactly one value per sender *)
+Theorem pregel_routing_delivery :
+  forall (V : Type) (ops : vops V) g outs t s v,
+    data_branches g -> outs_legal V ops g outs -> NoDup (akeys outs) ->
+    (In (s, v) (sent V ops g outs t) <->
+     exists n out, In (s, out) outs /\ find_node g s = Some n /\ receives V ops n out t
+                   /\ v = edge_value V ops n t out) /\
+    (alookup s (collect (sent V ops g outs t)) = Some v <-> In (s, v) (sent V ops g outs t)).
+Proof.
+  exact (fun V ops g outs t s v Hdb Hl Hnd =>
+           conj (in_sent_wf V ops g outs t s v Hdb Hl Hnd) (chan_holds_one_per_sender V ops g outs t s v Hnd)).
+Qed.
+Print Assumptions pregel_routing_delivery.
+
+(* ---------- pregel_frontier ---------- *)
+(* every reachable loop state satisfies the invariant, and has executed exactly k supersteps *)
+Theorem pregel_reachable_invariant :
+  forall V St ops exec sub sched p g x s k ls,
+    pregel_graph g -> sub_fail_nonempty V St sub ->
+    reachable V St ops exec sub sched p g x s k ls ->
+    pregel_inv V St ls /\ ls_step V St ls = k.
+Proof. exact reachable_inv. Qed.
+Print Assumptions pregel_reachable_invariant.
+
+(* the first frontier is what START routes the input to *)
+Theorem pregel_frontier_init :
+  forall V St ops p g x s cs ready,
+    pregel_graph g ->
+    calc_next V ops g (init_chans_v0 V g) [(kSTART, x)] = Ok (cs, ready) ->
+    alookup kEND ready = None ->
+    pregel_inv V St (init_state V St p cs ready s) /\
+    (forall t, In t (akeys ready) <-> sent V ops g [(kSTART, x)] t <> []) /\
+    (forall t v, In (t, v) ready ->
+       exists m, get_merge V ops (collect (sent V ops g [(kSTART, x)] t)) = Ok m /\ v = pre_node V ops g t m).
+Proof. exact pregel_init_frontier. Qed.
+Print Assumptions pregel_frontier_init.
+
+(* one superstep from any state satisfying the invariant (hence from every reachable state): all tasks of the
+   frontier run and complete, the tasks of the next step are exactly the nodes that were sent at least one
+   value, each once, each on the merge of exactly those values *)
+Theorem pregel_frontier :
+  forall V St ops exec sub sched p g (ls ls' : loopstate V St) results sublog s',
+    pregel_graph g -> sub_fail_nonempty V St sub -> pregel_inv V St ls ->
+    submit V St ops exec sub p g (ls_next V St ls) (ls_st V St ls) = (results, sublog, s') ->
+    step V St ops exec sub sched p g ls = Continue ls' ->
+    let outs := task_outputs V results in
+    pregel_inv V St ls' /\
+    ls_step V St ls' = S (ls_step V St ls) /\
+    akeys outs = akeys (ls_next V St ls) /\
+    ls_log V St ls' = ls_log V St ls ++ [step_entry V p (ls_next V St ls)] ++ sublog /\
+    (forall t, In t (akeys (ls_next V St ls')) <-> sent V ops g outs t <> []) /\
+    (forall t v, In (t, v) (ls_next V St ls') ->
+       exists m, get_merge V ops (collect (sent V ops g outs t)) = Ok m /\ v = pre_node V ops g t m) /\
+    outs_legal V ops g outs.
+Proof. exact pregel_step_frontier. Qed.
+Print Assumptions pregel_frontier.
+
+(* ---------- pregel_consumed_once ---------- *)
+Theorem pregel_channel_cleared_on_read :
+  forall (V : Type) (ops : vops V) (c c' : chan V) ov,
+    pregel_get V ops c = Ok (ov, c') ->
+    c_vals V c' = [] /\
+    match ov with
+    | Some v => c_vals V c <> [] /\ get_merge V ops (c_vals V c) = Ok v
+    | None => c_vals V c = []
+    end.
+Proof.
+  exact (fun V ops c c' ov H =>
+    conj (pregel_get_empties V ops c c' ov H)
+         (match ov as o return pregel_get V ops c = Ok (o, c') -> match o with
+                                | Some v => c_vals V c <> [] /\ get_merge V ops (c_vals V c) = Ok v
+                                | None => c_vals V c = [] end with
+          | Some v => fun H => pregel_get_some V ops c c' v H
+          | None => fun H => proj1 (pregel_get_none V ops c c' H)
+          end H)).
+Qed.
+Print Assumptions pregel_channel_cleared_on_read.
+
+(* a value sent in step k is part of the input of exactly one task, of step k+1, and no channel keeps anything *)
+Theorem pregel_consumed_once :
+  forall V St ops exec sub sched p g (ls ls' : loopstate V St) results sublog s',
+    pregel_graph g -> sub_fail_nonempty V St sub -> pregel_inv V St ls ->
+    submit V St ops exec sub p g (ls_next V St ls) (ls_st V St ls) = (results, sublog, s') ->
+    step V St ops exec sub sched p g ls = Continue ls' ->
+    let outs := task_outputs V results in
+    chans_empty V (ls_chans V St ls') /\
+    forall t s v, In (s, v) (sent V ops g outs t) ->
+      (exists x, In (t, x) (ls_next V St ls') /\ forall y, In (t, y) (ls_next V St ls') -> y = x) /\
+      alookup s (collect (sent V ops g outs t)) = Some v.
+Proof. exact pregel_step_consumed_once. Qed.
+Print Assumptions pregel_consumed_once.
+
+(* ---------- pregel_end_first ---------- *)
+Theorem pregel_end_first :
+  forall V St ops exec sub sched p g x s v l s',
+    pregel_graph g -> sub_fail_nonempty V St sub ->
+    run_flat V St ops exec sub sched p g x s = (Done v l, s') ->
+    (l = [run_marker V p] /\ s' = s /\ sent V ops g [(kSTART, x)] kEND <> [] /\
+     exists m, get_merge V ops (collect (sent V ops g [(kSTART, x)] kEND)) = Ok m /\ v = pre_node V ops g kEND m)
+    \/
+    (exists n ls results sublog,
+       reachable V St ops exec sub sched p g x s n ls /\
+       submit V St ops exec sub p g (ls_next V St ls) (ls_st V St ls) = (results, sublog, s') /\
+       sent V ops g (task_outputs V results) kEND <> [] /\
+       (exists m, get_merge V ops (collect (sent V ops g (task_outputs V results) kEND)) = Ok m
+                  /\ v = pre_node V ops g kEND m) /\
+       l = ls_log V St ls ++ [step_entry V p (ls_next V St ls)] ++ sublog /\
+       sent V ops g [(kSTART, x)] kEND = [] /\
+       (forall m lsm rm sm stm, (m < n)%nat -> reachable V St ops exec sub sched p g x s m lsm ->
+          submit V St ops exec sub p g (ls_next V St lsm) (ls_st V St lsm) = (rm, sm, stm) ->
+          sent V ops g (task_outputs V rm) kEND = [])).
+Proof. exact pregel_end_first_run. Qed.
+Print Assumptions pregel_end_first.
+
+(* ---------- pregel_bounded ---------- *)
+(* every run of every Pregel graph (cyclic ones included) is: a failure to route the input, an immediate
+   result, or k <= max_steps continuing supersteps followed by a step that finishes with a result, a node
+   error, the max-steps error (exactly at step max_steps), "no tasks" or an engine error (illegal branch
+   choice, unknown target, failed fan-in merge). The model's loop fuel is never exhausted. *)
+Theorem pregel_bounded :
+  forall V St ops exec sub sched p g x s,
+    pregel_graph g -> sub_fail_nonempty V St sub ->
+    run_shape V St ops exec sub sched p g x s (run_flat V St ops exec sub sched p g x s).
+Proof. exact pregel_run_shape. Qed.
+Print Assumptions pregel_bounded.
+
+(* as observed: the execution log of a run of a Pregel graph, at any nesting depth in any forest, has at most
+   max_steps supersteps of that graph instance (plus the run marker) *)
+Theorem pregel_bounded_log :
+  forall V St ops exec sched f F p g x s,
+    pregel_graph g ->
+    (own_entries V p (outcome_log V (fst (run_nest V St ops exec sched (S f) F p g x s))) <= S (max_steps g))%nat.
+Proof. exact pregel_nest_log_bounded. Qed.
+Print Assumptions pregel_bounded_log.
+
+Theorem pregel_bounded_nested :
+  forall V St ops exec sched f F p g x s,
+    pregel_graph g ->
+    run_shape V St ops exec (nest_sub V St ops exec sched f F) sched p g x s
+              (run_nest V St ops exec sched (S f) F p g x s).
+Proof. exact pregel_nest_run_shape. Qed.
+Print Assumptions pregel_bounded_nested.
+
+(* ---------- subgraph_is_function ---------- *)
+(* a graph run at a node path is the same graph run alone at the root (its lambdas being those found at that
+   path); only the recorded paths differ, by the prefix. Every mode, every nesting depth. *)
+Theorem subgraph_run_is_run_alone :
+  forall V St ops exec sched f F p0 g x s,
+    run_nest V St ops exec sched f F p0 g x s =
+    reloc V St p0 (run_nest V St ops (exec_at V St exec p0) sched f F [] g x s).
+Proof. exact run_nest_at_path. Qed.
+Print Assumptions subgraph_run_is_run_alone.
+
+(* a sub-graph node is the function [run sub]: its output is the sub-graph's result (under the node's output
+   key), its failure the sub-graph's failure prefixed by the node key *)
+Theorem subgraph_is_function :
+  forall V St ops exec sched f F p n i g' v s,
+    n_kind n = KSub i -> nth_error F i = Some g' ->
+    run_task V St ops exec (nest_sub V St ops exec sched f F) p n v s =
+    match run_nest V St ops (exec_at V St exec (p ++ [n_key n])) sched f F [] g' v s with
+    | (Done r l, s') => (TOk (wrap_out V ops n r), reloc_log V (p ++ [n_key n]) l, s')
+    | (Fail es l, s') => (TErr (map (err_prefix (n_key n)) es), reloc_log V (p ++ [n_key n]) l, s')
+    end.
+Proof. exact subgraph_node_is_run. Qed.
+Print Assumptions subgraph_is_function.
+
+(* nesting fuel is immaterial for forests whose sub-graph nodes refer to larger indices *)
+Theorem subgraph_fuel_independent :
+  forall V St ops exec sched F,
+    well_nested F ->
+    forall f1 f2 j g p x s,
+      nth_error F j = Some g ->
+      (List.length F - j <= f1)%nat -> (List.length F - j <= f2)%nat ->
+      run_nest V St ops exec sched f1 F p g x s = run_nest V St ops exec sched f2 F p g x s.
+Proof. exact run_nest_fuel_indep. Qed.
+Print Assumptions subgraph_fuel_independent.
+
+(* ================= non-vacuity ================= *)
+(* a cyclic graph: START -> 2 -> 3, 3 branches back to 2 or to END depending on the size of its output *)
+Definition ex_node (k : key) (ds : list key) (bs : list branch) : node :=
+  {| n_key := k; n_kind := KLambda; n_outkey := None; n_dsucc := ds; n_csucc := ds; n_dmap := []; n_branches := bs |}.
+Definition ex_cycle (max : nat) : graph :=
+  {| g_nodes := [ex_node kSTART [2] []; ex_node 2 [3] [];
+                 ex_node 3 [] [{| b_ends := [2; kEND]; b_nodata := false; b_table := [[2]; [kEND]; [2]] |}]];
+     g_mode := Pregel; g_eager := false; g_max := max |}.
+
+Example ex_pregel_graph : pregel_graph (ex_cycle 0) /\ data_branches (ex_cycle 0).
+Proof.
+  split; [split; reflexivity|]. intros n b Hn Hb. simpl in Hn.
+  destruct Hn as [<-|[<-|[<-|[]]]]; simpl in Hb; try contradiction. destruct Hb as [<-|[]]. reflexivity.
+Qed.
+
+(* the loop is taken twice, then END: 6 supersteps *)
+Example ex_cycle_done :
+  exists v l, tree_run [] [ex_cycle 0] (VAtom 1) = Done v l /\ own_entries value [] l = 7%nat.
+Proof. eexists. eexists. split; vm_compute; reflexivity. Qed.
+
+(* with a limit of 3 the same run fails with the max-steps error after exactly 3 supersteps *)
+Example ex_cycle_limit :
+  exists l, tree_run [] [ex_cycle 3] (VAtom 1) = Fail [mkerr eMaxSteps] l /\ own_entries value [] l = 4%nat.
+Proof. eexists. split; vm_compute; reflexivity. Qed.
+
+(* a reachable state and a continuing step exist (hypotheses of pregel_frontier / pregel_consumed_once) *)
+Example ex_reachable_continue :
+  exists ls ls', reachable value unit tree_ops (tree_exec []) (fun _ _ _ s => (Fail [mkerr eUnknownNode] [], s))
+                   sched_first [] (ex_cycle 0) (VAtom 1) tt 1 ls /\
+    step value unit tree_ops (tree_exec []) (fun _ _ _ s => (Fail [mkerr eUnknownNode] [], s)) sched_first
+         [] (ex_cycle 0) ls = Continue ls'.
+Proof.
+  eexists. eexists. split.
+  - eexists. eexists. split; [vm_compute; reflexivity|]. split; [vm_compute; reflexivity|].
+    econstructor; [vm_compute; reflexivity|constructor].
+  - vm_compute. reflexivity.
+Qed.
